@@ -285,7 +285,7 @@ theorem poll_start_spec {sc : Sched} {p : Peer} {b' : Nat} {o : Ossl} {v : View}
         simp only at hres'
         obtain ⟨h1, _, _, h4, h5, h6, t, h7⟩ := hres'
         refine ⟨h1, Or.inl rfl, by omega, h4, h5, h6, t, ?_⟩
-        rw [h7]; dsimp only; rw [hme]
+        rw [h7, hme]
     | ready u =>
       cases u
       simp only at hres'
